@@ -203,6 +203,10 @@ def observe(case, cfg=None, wd=None):
                 tmpl = cls(XML(src), **kw)
             else:
                 raise ValueError(root['src'])
+            if root.get('pickle'):
+                # a template that went through pickle keeps its flag and its loader's
+                import pickle
+                tmpl = pickle.loads(pickle.dumps(tmpl))
         elif root['kind'] == 'load':
             if root['cls'] == 'default':
                 tmpl = loader.load(rf['name'])
@@ -859,6 +863,8 @@ def valid_case(case):
             if root['src'] not in ('str', 'bytes', 'file', 'stream') or not isinstance(root['own_loader'], bool):
                 return False
             if root['src'] == 'stream' and syn != 'markup':
+                return False
+            if not isinstance(root.get('pickle', False), bool) or (root.get('pickle') and case.get('history')):
                 return False
         elif k == 'load':
             if root['cls'] not in ('arg', 'default'):
